@@ -217,7 +217,7 @@ def gen_workload(tape, *, max_funcs=5, max_size=3, allow_gen=True, allow_tuple=T
             if tape.coin(0.07, "array-from-default"):
                 d["via_default"] = True
             elif tape.coin(0.08, "shadowed-array-default"):
-                d["shadow_default"] = tape.pick([-1, -1, 1], "shadow-len")  # default is shorter / longer than the input
+                d["shadow_default"] = tape.pick([-1, 0, 1], "shadow-len")  # default is shorter than / as long as / longer than the input
     w = {"indices": idx_size, "inputs": inputs, "functions": funcs,
          "internal_via": tape.pick(["pipefunc", "map-arg", "both"], "internal-via")}
     if tape.coin(0.06, "long-names"):
@@ -291,7 +291,7 @@ def array_defaults(w, fd):
         shape = tuple(w["indices"][a] for a in d["axes"])
         if d.get("via_default"):
             out[name] = _array_value(name, d, shape)
-        elif d.get("shadow_default"):
+        elif d.get("shadow_default") is not None:
             first = max(0, shape[0] + d["shadow_default"])
             v = _array_value(name + "-default", d, (first, *shape[1:]))
             out[name] = v
@@ -450,7 +450,7 @@ def describe(w):
     return {
         "indices": w["indices"],
         "inputs": {k: (v["kind"], v["axes"], *(["via-default"] if v.get("via_default") else []),
-                       *([f"shadowed-default{v['shadow_default']:+d}"] if v.get("shadow_default") else []))
+                       *([f"shadowed-default{v['shadow_default']:+d}"] if v.get("shadow_default") is not None else []))
                    for k, v in w["inputs"].items()},
         "functions": [
             {"f": fd["name"], "params": fd["params"], "out": fd["outputs"], "mapspec": fd["mapspec"],
